@@ -12,6 +12,8 @@ THEOREMS = [
     'Sourcer.C08_failure_outcome',
     'Sourcer.C01_codegen_refines_peg',
     'Tie.implFlags_sound',
+    'Sourcer.C08_shift_law',
+    'Sourcer.C08_shift_law_generated_code',
 ]
 TIE_MODULES = ['Tie.Flags']
 ASSUMPTIONS = [
